@@ -282,21 +282,54 @@ class SBytes(object):
         self._need_bytes("startswith")
         return self[:len(p)] == p
 
-    def find(self, *a):
+    def find(self, pat, *a):
         self._need_bytes("find")
-        raise CannotEncode("find() on symbolic bytes")
+        if a:
+            raise CannotEncode("find() with start/end on symbolic bytes")
+        if len(pat) > self.n:
+            return -1
+        if len(pat) > 0:
+            for i in range(self.n - len(pat) + 1):
+                if self[i:i + len(pat)] == pat:
+                    return i
+            return -1
+        return 0
 
-    def index(self, *a):
-        self._need_bytes("index")
-        raise CannotEncode("index() on symbolic bytes")
+    def index(self, pat, *a):
+        r = self.find(pat, *a)
+        if r == -1:
+            raise ValueError("subsection not found")
+        return r
 
-    def split(self, *a):
+    def split(self, sep=None, *a):
         self._need_bytes("split")
-        raise CannotEncode("split() on symbolic bytes")
+        if sep is None or len(sep) != 1 or a:
+            raise CannotEncode("split() form not modelled on symbolic bytes")
+        parts, start = [], 0
+        for i in range(self.n):
+            if self[i] == sep[0]:
+                parts.append(self[start:i] if i > start else b"")
+                start = i + 1
+        parts.append(self[start:] if start < self.n else b"")
+        return parts
 
     def strip(self, *a):
         self._need_bytes("strip")
-        raise CannotEncode("strip() on symbolic bytes")
+        if a:
+            raise CannotEncode("strip(chars) on symbolic bytes")
+        ws = (9, 10, 11, 12, 13, 32)
+        a0, b0 = 0, self.n
+
+        def is_ws(c):
+            if isinstance(c, int):
+                return c in ws
+            from .core import sor
+            return bool(sor(*[c == w for w in ws]))
+        while a0 < b0 and is_ws(self[a0]):
+            a0 += 1
+        while b0 > a0 and is_ws(self[b0 - 1]):
+            b0 -= 1
+        return self[a0:b0] if a0 < b0 else b""
 
     def decode(self, *a):
         self._need_bytes("decode")
